@@ -178,7 +178,9 @@ CONFIG = {
                  "timestamps, <=1 buffered at every quiescent point, closed after the count-th value or at the first quiescent point after cancellation, <=1 tick forwarded after cancel, "
                  "producer goroutine gone (leak oracle). non-trivial = count>=3, cancellation while the producer is alive and a value still buffered at that instant; distinct = hash of the case."),
         "jobs": [{"name": "attempt", "test": "TestC20Attempt", "steps": 12, "checks": {"quick": 16000, "thorough": 2400000}, "shards": {"quick": 8, "thorough": 16}, "env": {"VKIT_PROFILE": "C20"}},
-                 {"name": "attempt_free", "test": "TestC20Free", "checks": {"quick": 4000, "thorough": 600000}, "shards": {"quick": 4, "thorough": 16}}],
+                 {"name": "attempt_free", "test": "TestC20Free", "checks": {"quick": 4000, "thorough": 600000}, "shards": {"quick": 4, "thorough": 16}},
+                 # real clock, several (overlapping) attempts per case; count/closure facts only, hangs are the stall watchdog's business
+                 {"name": "attempt_real", "test": "TestC20Real", "checks": {"quick": 240, "thorough": 24000}, "shards": {"quick": 8, "thorough": 16}, "stall_sig": "C20/stall"}],
     },
     "C14": {
         "rule": ("(free) free-running programs in a bubble: 2-6 callers x 2-12 invocations through Call with an own function or through 1-2 shared Wrap wrappers (one function serving overlapping invocations); oracle = bijection between invocations and executions (value and error of one finished execution each, none returned twice, own function for Call), concurrency bound checked inside the functions, Wait/Count afterwards. The stepper also bounds overtaking: a call seen queued at a quiescent point may not be passed by more than 8 calls made after that point. " + "rapid stepper over bigbuff.Workers in a synctest bubble: rules call(count 1-4, gated task returning a unique value/error; also via Wrap), release(task), wait (launched), "
